@@ -628,76 +628,125 @@ def r07_3(cx):
     cx.report('R07.3', b, 'buffer_pos-advance', okp, 'buffer_pos += absolute_pos - (absolute_pos at scan start) on every exit of the scan' if okp else 'buffer_pos is not advanced by the number of bytes scanned: ' + why)
 
 
+def _has_upd(t):
+    return any(s[0] == 'upd' for s in subterms(t))
+
+
 @only(STREAM_CONFIGS)
 def r07_5(cx):
+    """The refill block of StreamChunkIter::next, decided on the summaries of one iteration of its main loop."""
+    from acverif.sym import loop_rows, canon, cstr, teval, by_cstr, row_consistent
     b = cx.body(NEXT)
-    fills = b.calls(r'Buffer::fill$')
-    rolls = b.calls(r'Buffer::roll$')
-    if len(fills) != 1 or len(rolls) != 1:
-        cx.bad('R07.5', b, 'sites', 'expected one fill and one roll call, found %d / %d' % (len(fills), len(rolls)))
+    loops = b.loops()
+    if not loops:
+        cx.bad('R07.5', b, 'sites', 'StreamChunkIter::next has no main loop')
         return
-    fb, rb = fills[0][0], rolls[0][0]
-    ct = b.call_term(*fills[0])
-    okf = sf(peel(ct[2][0]), 'buf') and sf(peel(ct[2][1]), 'rdr')
-    cx.report('R07.5', b, 'fill-args', okf, 'fill(&mut self.rdr) on self.buf' if okf else 'fill called as %s' % tstr(ct, 120))
-    # entered only when buffer_pos >= len
-    g = bool_gates(b, lambda x: cmp_norm(snorm(x)) == cmp_norm(('op', 'Ge', POS, LEN)) or (cmp_norm(snorm(x)) is not None and negate(cmp_norm(snorm(x))) == cmp_norm(('op', 'Ge', POS, LEN))))
-    cut = []
-    for gb, cond, te, fe in g:
-        cut += te if cmp_norm(snorm(cond)) == cmp_norm(('op', 'Ge', POS, LEN)) else fe
-    ok = bool(g) and not reachable_without(b, [fb, rb], cut)
-    cx.report('R07.5', b, 'entry', ok, 'roll/fill are reachable only when buffer_pos >= buffer().len()' if ok else 'the refill block can be entered while unscanned bytes remain')
-    # match state is handled before the refill: refill only through the false edge of is_match(self.sid)
-    mg = bool_gates(b, lambda x: is_call(x, r'Automaton::is_match$') and sf(x[2][1], 'sid'))
-    first = [x for x in mg if b.dominates(x[0], fb)]
-    cutm = [e for x in first for e in x[3]]
-    okm = bool(first) and not reachable_without(b, [fb, rb], cutm)
-    cx.report('R18.4', b, 'match-before-refill', okm, 'a pending match is emitted before any refill (refill only on the non-match edge)' if okm else 'refill is reachable while self.sid is a match state')
-    # pending pre-roll chunk first
-    pg = discr_gates(b, lambda x: is_call(x, r'StreamChunkIter::get_pre_roll_non_match_chunk$'))
-    cutp = []
-    for gb, x, arms, oth in pg:
-        some = {tg for v, tg in arms.items() if v == 1}
-        cutp += [(gb, s) for s in b.succ(gb) if s not in some]
-    okp = bool(pg) and not reachable_without(b, [fb, rb], cutp)
-    cx.report('R18.4', b, 'pre-roll-before-refill', okp, 'unreported bytes older than the retained tail are returned before roll/fill' if okp else 'roll/fill reachable while a pre-roll chunk is pending')
-    # roll only under len >= min, with the two adjustments before it
-    # `len >= min` or the equivalent-in-effect `len > min` (rolling a buffer of exactly min bytes is a no-op)
-    POSF = (cmp_norm(('op', 'Ge', LEN, MIN)), cmp_norm(('op', 'Gt', LEN, MIN)))
-    NEGF = tuple(negate(x) for x in POSF)
-    lg = bool_gates(b, lambda x: cmp_norm(snorm(x)) in POSF + NEGF)
-    cutl = []
-    for gb, cond, te, fe in lg:
-        cutl += te if cmp_norm(snorm(cond)) in POSF else fe
-    okl = bool(lg) and not reachable_without(b, [rb], cutl)
-    cx.report('R07.5', b, 'roll-guard', okl, 'roll() only when buffer().len() >= min_buffer_len()' if okl else 'roll() reachable with fewer than min bytes buffered')
-    # and when len >= min the roll is not skipped before fill (keeps free space > 0)
-    okns = all(must_pass(b, [fb], [rb], src=tg) for gb, cond, te, fe in lg for _, tg in (te if cmp_norm(snorm(cond)) in POSF else fe))
-    cx.report('R18.3', b, 'roll-before-fill', okns and bool(lg), 'with len >= min the buffer is rolled before fill, so fill always has free space and a 0 read is the reader\'s EOF' if okns and lg else 'fill can be reached with a full, unrolled buffer')
-    pos = [(bi, val) for bi, si, tt, val, st in b.field_stores() if sf(tt, 'buffer_pos') and b.dominates(bi, rb)]
-    okpos = len(pos) == 1 and snorm(pos[0][1]) == MIN and not reachable_without(b, [pos[0][0]], cutl)
-    cx.report('R07.5', b, 'pos-adjust', okpos, 'buffer_pos = min precedes roll()' if okpos else 'buffer_pos is not set to min before roll()')
-    rep = [(bi, val) for bi, si, tt, val, st in b.field_stores() if sf(tt, 'buffer_reported_pos') and b.dominates(bi, rb) and 'rlen' not in tstr(snorm(val))]
-    okrep = len(rep) == 1 and affine_str(snorm(rep[0][1])) == affine_str(('op', 'Sub', REP, sub(LEN, MIN))) and not reachable_without(b, [rep[0][0]], cutl)
-    cx.report('R07.5', b, 'reported-adjust', okrep, 'buffer_reported_pos -= len - min precedes roll() (computed from the pre-roll length)' if okrep else 'buffer_reported_pos is not shifted by len - min before roll()')
-    # no such adjustment elsewhere
-    oth_pos = [(bi, val) for bi, si, tt, val, st in b.field_stores() if sf(tt, 'buffer_pos') and not b.dominates(bi, rb)]
-    oko = len(oth_pos) == 1
-    cx.report('R07.5', b, 'pos-writers', oko, 'buffer_pos has exactly two writers: the roll adjustment and the scan advance' if oko else 'buffer_pos writers: %s' % [tstr(snorm(v), 80) for _, v in pos + oth_pos])
-    okorder = fb in b.reach_after(rb) and rb not in b.reach_after(fb, cut_blocks=[b.calls(r'Automaton::is_match$')[0][0]])
-    cx.report('R07.5', b, 'roll-then-fill', okorder, 'fill follows roll within one refill' if okorder else 'roll does not precede fill')
-    # Ok(true) falls through to the scan
-    ns = b.calls(r'Automaton::next_state$')
-    fg = discr_gates(b, lambda x: is_call(x, r'Buffer::fill$'))
-    okt = False
-    if fg and ns:
-        gb, x, arms, oth = fg[0]
-        ok_tg = arms.get(0)
-        if ok_tg is not None:
-            bg = bool_gates(b, lambda y: y[0] == 'f' and y[2] == '0' and y[1][0] == 'dc' and y[1][2] == 'Ok' and is_call(y[1][1], r'Buffer::fill$'))
-            if bg:
-                okt = all(ns[0][0] in b.reach(tg, cut_blocks=[fb]) and not any(b.blocks[r]['term']['k'] == 'return' for r in b.reach(tg, cut_blocks=[fb, ns[0][0], b.calls(r'Iterator::next$')[0][0]])) for _, tg in bg[0][2])
-    cx.report('R07.5', b, 'fill-true-scans', okt, 'Ok(true) from fill proceeds to the scan' if okt else 'Ok(true) from fill does not fall through to the scan')
+    outer = max(loops, key=lambda h: len(loops[h]))
+    rows = [r for r in loop_rows(cx.facts, b, outer) if r.end != 'diverge']
+    LENS = 'core::slice::len(util::buffer::Buffer::buffer(self.buf))'
+    MINS, POSS, REPS = 'self.buf.min', 'self.buffer_pos', 'self.buffer_reported_pos'
+
+    def kind(e):
+        if e[0] == 'call':
+            n = short(e[1][1])
+            for k in ('Buffer::roll', 'Buffer::fill'):
+                if n.endswith(k):
+                    return k.split('::')[1]
+        return None
+    refill = [r for r in rows if any(kind(e) for e in r.effects)]
+    if not refill or not any(any(kind(e) == 'roll' for e in r.effects) for r in refill) or not any(any(kind(e) == 'fill' for e in r.effects) for r in refill):
+        cx.bad('R07.5', b, 'sites', 'no iteration of StreamChunkIter::next rolls and fills the buffer')
+        return
+    why = dict.fromkeys(('fill-args', 'entry', 'match', 'preroll', 'guard', 'noskip', 'pos', 'rep', 'order', 'writers', 'scan'))
+    grid = [(p_, l_, m_) for p_ in (0, 1, 2, 3) for l_ in (0, 1, 2, 3) for m_ in (1, 2, 3)]
+    for r in refill:
+        ev = [e for e in r.effects if e[0] in ('call', 'store')]
+        kinds = [kind(e) for e in ev]
+        fills = [canon(e[1]) for e in ev if kind(e) == 'fill']
+        rolls = [i for i, k in enumerate(kinds) if k == 'roll']
+        fi = [i for i, k in enumerate(kinds) if k == 'fill']
+        if len(fills) != 1 or len(rolls) > 1:
+            why['order'] = why['order'] or '%d fill / %d roll calls in one refill' % (len(fills), len(rolls))
+            continue
+        if [cstr(a) for a in fills[0][2]] != ['self.buf', 'self.rdr']:
+            why['fill-args'] = 'fill is called as %s' % tstr(fills[0], 100)
+        if r.cond(lambda c: is_call(canon(c), r'Automaton::is_match$') and cstr(canon(c)[2][1]) == 'self.sid') is not False:
+            why['match'] = 'refill is reachable while self.sid is a match state'
+        if r.cond(lambda c: c[0] == 'discr' and is_call(c[1], r'StreamChunkIter::get_pre_roll_non_match_chunk$')) in (1, None):
+            why['preroll'] = 'roll/fill reachable while a pre-roll chunk is pending'
+        if rolls and rolls[0] > fi[0]:
+            why['order'] = 'roll does not precede fill'
+        for p_, l_, m_ in grid:
+            at = by_cstr({POSS: p_, LENS: l_, MINS: m_, REPS: 7})
+            try:
+                cons = row_consistent(r, at)
+            except Exception:
+                cons = True
+            if not cons:
+                continue
+            if p_ < l_:
+                why['entry'] = 'the refill block can be entered while unscanned bytes remain (buffer_pos=%d < len=%d)' % (p_, l_)
+            if rolls and l_ < m_:
+                why['guard'] = 'roll() reachable with fewer than min bytes buffered (len=%d, min=%d)' % (l_, m_)
+            if not rolls and l_ > m_:
+                why['noskip'] = 'fill can be reached with an unrolled buffer holding more than min bytes (len=%d, min=%d): a full buffer makes a 0-byte read look like EOF' % (l_, m_)
+            if rolls:
+                before = ev[:rolls[0]]
+                ps = [e for e in before if e[0] == 'store' and cstr(e[1]) == POSS]
+                rs = [e for e in before if e[0] == 'store' and cstr(e[1]) == REPS]
+                try:
+                    if len(ps) != 1 or teval(ps[0][2], at) != m_:
+                        why['pos'] = 'buffer_pos is not set to min before roll()'
+                    if len(rs) != 1 or teval(rs[0][2], at) != 7 - (l_ - m_) or _has_upd(rs[0][2]):
+                        why['rep'] = 'buffer_reported_pos is not shifted by (pre-roll len) - min before roll()'
+                except (Unsupported, EvalPanic):
+                    why['rep'] = why['rep'] or 'the roll adjustment cannot be evaluated'
+        # after Ok(true) the iteration goes on to the scan; nothing is returned
+        ft = r.cond(lambda c: cstr(c) == '(util::buffer::Buffer::fill(self.buf, self.rdr) as Ok).0')
+        if ft is True and not (r.end == ('stop', outer) and any(e[0] == 'loop' for e in r.effects)):
+            why['scan'] = 'Ok(true) from fill does not fall through to the scan'
+    # conversely: with nothing left to scan (and no pending match) the iteration must refill or flush, not scan
+    for r in rows:
+        if r in refill:
+            continue
+        if r.cond(lambda c: is_call(canon(c), r'Automaton::is_match$') and cstr(canon(c)[2][1]) == 'self.sid') is not False:
+            continue
+        if r.cond(lambda c: c[0] == 'discr' and is_call(c[1], r'StreamChunkIter::get_pre_roll_non_match_chunk$')) == 1:
+            continue
+        for p_, l_, m_ in grid:
+            if p_ < l_:
+                continue
+            try:
+                cons = row_consistent(r, by_cstr({POSS: p_, LENS: l_, MINS: m_, REPS: 7}))
+            except Exception:
+                cons = True
+            if cons:
+                why['entry'] = why['entry'] or 'with buffer_pos=%d >= len=%d and no pending match the iteration neither refills nor flushes (the scan of an empty tail makes no progress)' % (p_, l_)
+    # writers of buffer_pos over all iterations: the roll adjustment and the scan advance
+    for r in rows:
+        for e in r.effects:
+            if e[0] == 'store' and cstr(e[1]) == POSS:
+                v = canon(e[2])
+                if cstr(v) == MINS:
+                    continue
+                try:
+                    a = teval(e[2], lambda t0: 10 if cstr(t0) == POSS else (5 if (cstr(t0) == 'self.absolute_pos' and not _has_upd(t0)) else (8 if cstr(t0) == 'self.absolute_pos' else None)))
+                except (Unsupported, EvalPanic):
+                    a = None
+                if a not in (10 + 3, 10 + 4, 10):
+                    why['writers'] = 'buffer_pos is written with %s (allowed: min at a roll, += bytes scanned)' % tstr(v, 100)
+    rep = lambda k, key, good, bad=None: cx.report(k, b, key, why[bad or key] is None, good if why[bad or key] is None else why[bad or key])
+    cx.report('R07.5', b, 'fill-args', why['fill-args'] is None, 'fill(&mut self.rdr) on self.buf' if why['fill-args'] is None else why['fill-args'])
+    cx.report('R07.5', b, 'entry', why['entry'] is None, 'roll/fill are reachable only when buffer_pos >= buffer().len()' if why['entry'] is None else why['entry'])
+    cx.report('R18.4', b, 'match-before-refill', why['match'] is None, 'a pending match is emitted before any refill (refill only on the non-match edge)' if why['match'] is None else why['match'])
+    cx.report('R18.4', b, 'pre-roll-before-refill', why['preroll'] is None, 'unreported bytes older than the retained tail are returned before roll/fill' if why['preroll'] is None else why['preroll'])
+    cx.report('R07.5', b, 'roll-guard', why['guard'] is None, 'roll() only when buffer().len() >= min_buffer_len()' if why['guard'] is None else why['guard'])
+    cx.report('R18.3', b, 'roll-before-fill', why['noskip'] is None, 'with len > min the buffer is rolled before fill, so fill always has free space and a 0 read is the reader\'s EOF' if why['noskip'] is None else why['noskip'])
+    cx.report('R07.5', b, 'pos-adjust', why['pos'] is None, 'buffer_pos = min precedes roll()' if why['pos'] is None else why['pos'])
+    cx.report('R07.5', b, 'reported-adjust', why['rep'] is None, 'buffer_reported_pos -= len - min precedes roll() (computed from the pre-roll length)' if why['rep'] is None else why['rep'])
+    cx.report('R07.5', b, 'pos-writers', why['writers'] is None, 'buffer_pos is written only by the roll adjustment and the scan advance' if why['writers'] is None else why['writers'])
+    cx.report('R07.5', b, 'roll-then-fill', why['order'] is None, 'fill follows roll within one refill' if why['order'] is None else why['order'])
+    cx.report('R07.5', b, 'fill-true-scans', why['scan'] is None, 'Ok(true) from fill proceeds to the scan' if why['scan'] is None else why['scan'])
 
 
 @only(STREAM_CONFIGS)
